@@ -30,6 +30,7 @@ EntryEdits(e) ==
     \cup (IF ~e.dup /\ Len(e.c.desc) > 0 THEN {[e EXCEPT !.dup = TRUE]} ELSE {})
     \cup (IF e.tlenD = 0 /\ Len(e.c.desc) > 0
           THEN {[e EXCEPT !.tlenD = 1]} \cup (IF Len(e.c.desc[Len(e.c.desc)][2]) > 0 THEN {[e EXCEPT !.tlenD = 0 - 1]} ELSE {}) ELSE {})
+    \cup {[e EXCEPT !.stray = x] : x \in IF e.stray = <<>> THEN {<<ICell(0)>>, <<ICell(5), ICell(0)>>} ELSE {}}
     \cup {[e EXCEPT !.emac = x] : x \in IF e.emac = "valid" THEN {"idx-1", "idx+1", "otherkey", "garbage"} ELSE {}}
     \cup {[e EXCEPT !.pmac = x] : x \in IF e.pmac = "valid" THEN {"otherkey", "garbage"} ELSE {}}
 Edit == /\ L!Deviations(d) < MaxDev
